@@ -2,6 +2,7 @@
 
 import ast
 import io
+import itertools
 import keyword
 import random
 import tokenize
@@ -69,7 +70,8 @@ TRUSTED = [
     'bistr.b2c is modelled by its closed form (byte inside character i -> i) instead of the scatter + forward-fill loops; '
     'every byte offset of every generated string is compared each run',
     'oracle exclusions (cannot be decided soundly from tokens): parentheses of `with (a): ...` (single item, no `as`); '
-    'pars() of nodes inside f-strings, of expressions inside patterns, of Starred, and shared=False/None variants; '
+    'pars() of nodes inside f-strings, of expressions inside patterns, of Starred; pars(shared=False) is only checked for '
+    'independence of the query order, pars(shared=None) against all directly enclosing pairs except for a sole genexp call argument; '
     'children of JoinedStr in the overlap check (CPython itself overlaps the debug-text Constant of `{x=}` with the '
     'FormattedValue); zero-width query rectangles in the find_*loc brute force (which of two touching nodes "contains" an '
     'empty rectangle is not defined); AugAssign operator accepted with or without its `=`; Lambda arguments accepted '
@@ -124,6 +126,8 @@ SNIPPETS = [
     'def f(): return "#"\nif a: x = \'#\'\nclass C: x = "a#b"  \nfor i in j:\n    y = "# not a comment"\nwhile a:\n    z = f("#")  # real\n',
     'try:\n    x = "#"\nexcept E:\n    y = \'#\'\nelse:\n    z = "#"\nfinally:\n    w = "#" # c\nwith a:\n    v = """#"""\nmatch a:\n    case 1:\n        u = "#"\n',
     'def f[T: (int, str), *Ts, **P](a: T, *b: (Ts)) -> (T): pass\nasync def g[U: (int)](): pass\nclass K[V: (a, b)](B): pass',
+    'f(k=1, *a, *b, *c)\nf(x, k=1, *a, j=2, *b, *c, *d)\nf(*a, k=1, *b, **d, l=2)\nclass C(k=1, *a, *b, *c): pass\nclass D(x, *y, k=1, *a, *b, **kw): pass',
+    'f((target))\nclass C((base)): pass\nfrom m import (a as b)\nmatch x:\n    case C((p)): pass\n',
     '@d("#")\ndef f(x="#"): return x["#"]\nasync def g():\n    async with a: await b("#")\n',
 ]
 
@@ -169,8 +173,61 @@ def inject_multibyte(src, rng):
         return src
 
 
-def programs(rng, n, stdlib):
+def arglist_shape(rng):
+    """a Call argument list / ClassDef bases list mixing positional, *starred, keyword and **kw arguments: keywords
+    interleaved with starred arguments, 0-4 starred after the last keyword (parsed by CPython before use)"""
+    names = iter(['a', 'b', 'c', 'd', 'e', 'g', 'h', 'i', 'j', 'm', 'n', 'o', 'p', 'q', 'r', 's', 't', 'u', 'v', 'w'])
+    kws = iter(['k', 'l', 'kk', 'ky', 'kz', 'kq'])
+
+    def val():
+        n = next(names)
+        return rng.choice([n, n, n, f'({n})', f'{n}.x', f'{n}[0]', f'{n} or 1'])
+
+    items = []
+    for _ in range(rng.choice([0, 0, 1, 2])):
+        items.append(rng.choice(['', '', '*']) + val())
+    nkw = rng.choice([0, 1, 1, 2, 3])
+    for i in range(nkw):
+        items.append(f'{next(kws)}={val()}')
+        last = i == nkw - 1
+        for _ in range(rng.choice([0, 1, 2, 3, 4]) if last else rng.choice([0, 0, 1, 2])):
+            items.append('*' + val())
+    if rng.random() < 0.3:
+        items.append('**' + val())
+        if rng.random() < 0.5:
+            items.append(f'{next(kws)}={val()}')
+    sep = rng.choice([', ', ', ', ',', ' , ', ',\n    ', ',  # c\n    '])
+    txt = sep.join(items)
+    if items and rng.random() < 0.2:
+        txt += ','
+    return txt
+
+
+def arglist_programs(rng, n):
     out = []
+    while len(out) < n:
+        a = arglist_shape(rng)
+        c = rng.random()
+        if c < 0.5:
+            src = f'r = f({a})'
+        elif c < 0.7:
+            src = f'class C({a}): pass'
+        elif c < 0.85:
+            src = f'@d({a})\nclass C({arglist_shape(rng)}):\n    x = g({arglist_shape(rng)})'
+        else:
+            src = f'r = f(g({a}), k=h({arglist_shape(rng)}))'
+        try:
+            ast.parse(src)
+        except SyntaxError:
+            continue
+        if rng.random() < 0.25:
+            src = inject_multibyte(src, rng)
+        out.append(src)
+    return out
+
+
+def programs(rng, n, stdlib):
+    out = arglist_programs(rng, max(12, n // 12))
     base = corpus.programs(rng, n, stdlib=stdlib)
     for src in base:
         if rng.random() < 0.35:
@@ -506,6 +563,61 @@ def _sweep_prog_inner(arg):
                     if g[0]:
                         res['nontrivial'] += 1
                         tally('pars-count:' + str(min(g[0], 3)))
+    # --- pars() must not depend on the order in which the three `shared` modes are asked -----------------------------
+    def par_nodes(r):
+        out = []
+        for i, f in enumerate(r.walk(True)):
+            o = o_of_idx[i]
+            if isinstance(o, (ast.expr, ast.pattern)) and not isinstance(o, (ast.Slice, ast.FormattedValue, ast.Starred, ast.JoinedStr)) \
+                    and id(o) not in orc.in_fstr and id(o) not in orc.in_pattern and orc.has_pos(o):
+                out.append((i, f, o))
+        return out
+
+    o_of_idx = [o_of[id(f.a)] for f in root.walk(True)]
+    answers = {}
+    for order in itertools.permutations((True, False, None)):
+        try:
+            r2 = _mk(src)
+        except Exception:
+            break
+        if [f.a.__class__ for f in r2.walk(True)] != [o.__class__ for o in o_of_idx]:
+            break
+        for i, f, o in par_nodes(r2):
+            for sh in order:
+                try:
+                    p = f.pars(shared=sh)
+                    answers.setdefault((i, sh), []).append((order, (p[0], p[1], p[2], p[3], p.n)))
+                except Exception as e:
+                    answers.setdefault((i, sh), []).append((order, ('raised', type(e).__name__)))
+    for (i, sh), lst in answers.items():
+        res['checks'] += 1
+        o = o_of_idx[i]
+        k = _kind(o)
+        vals = {}
+        for order, a in lst:
+            vals.setdefault(a, []).append(order)
+        # the answer of a mode asked FIRST on a fresh tree, judged by the token oracle
+        first = next((a for order, a in lst if order[0] is sh), None)
+        exp = None
+        if sh is True:
+            exp = orc.grouping(o)
+        elif sh is None:
+            po = orc.parent.get(id(o))
+            if not (isinstance(o, ast.GeneratorExp) and isinstance(po, ast.Call) and len(po.args) == 1 and not po.keywords):
+                exp = orc.grouping_any(o)       # (a sole genexp argument sharing the call's parentheses answers n=-1: not judged)
+        if len(vals) > 1:
+            (a1, o1), (a2, o2) = list(vals.items())[:2]
+            judged = ''
+            if exp is not None:
+                wrong = [a for a in vals if a[0] == 'raised' or a[4] != exp[0] or ((a[0], a[1]), (a[2], a[3])) != exp[1]]
+                judged = f'; the token stream gives {exp[0]} pair(s) spanning {exp[1]}, so {wrong} is not the node\'s parentheses'
+            fail(f'C06|pars(shared={sh})|{k}|answer-depends-on-query-order',
+                 f'{k} at {orc.span(o)}: pars(shared={sh}) = {a1} when the modes are asked in order {o1[0]} but {a2} in order {o2[0]}{judged}',
+                 node=k, orders={str(a): [list(map(str, x)) for x in os_] for a, os_ in vals.items()})
+        elif exp is not None and first is not None and sh is None:
+            if first[0] == 'raised' or first[4] != exp[0] or ((first[0], first[1]), (first[2], first[3])) != exp[1]:
+                fail(f'C06|pars(shared=None)|{k}|{"count" if first[0] == "raised" or first[4] != exp[0] else "span"}',
+                     f'{k} at {orc.span(o)}: pars(shared=None) = {first} but {exp[0]} parenthesis pair(s) enclose it directly, spanning {exp[1]}', node=k)
     # --- children inside parents, siblings ordered -------------------------------------------------------------------
     nodes = _walk_list(root)
     kids = {}
@@ -542,9 +654,24 @@ def _sweep_prog_inner(arg):
     for i, (f, d, pi) in enumerate(nodes):
         anc[i] = (anc[pi] | {pi}) if pi is not None else frozenset()
     ids = {id(f): i for i, (f, _, _) in enumerate(nodes)}
-    locs = [tuple(f.loc) for f, _, _ in nodes]
+    # the scan is over CPython's own positions wherever the node has them (computed locations were judged above)
+    locs = []
+    for f, _, _ in nodes:
+        o = o_of[id(f.a)]
+        if orc.has_pos(o):
+            (a, b), (c, d) = orc.span(o)
+            locs.append((a, b, c, d))
+        else:
+            locs.append(tuple(f.loc))
     in_fstr = {i for i, (f, _, _) in enumerate(nodes) if id(o_of[id(f.a)]) in orc.in_fstr}
-    for q in _queries(rng, nodes, root._lines, nq, False):
+    # every node's own rectangle (deterministic), then random / boundary rectangles
+    own = []
+    seen_q = set()
+    for l in locs:
+        if (l[0], l[1]) < (l[2], l[3]) and l not in seen_q:
+            seen_q.add(l)
+            own.append(l)
+    for q in own + [tuple(x) for x in _queries(rng, nodes, root._lines, nq, False)]:
         q = tuple(q)
         res['checks'] += 1
         cont = [i for i, l in enumerate(locs) if _contains(l, q)]
